@@ -41,7 +41,8 @@ def gen_history(r, lag, short):
       ops.append(('sleep', r.choice([1, 10, 31, 40])))
     else:
       # timestamps relative to the virtual epoch: some old (eligible), some young
-      base = 1000000 - 100 if not lag else r.choice([1000000 - 100, 1000000 - 100, 1000000 + 5])
+      # (without a lag, a datapoint stamped now or in the future - a sender whose clock runs ahead - must drain like any other)
+      base = r.choice([1000000 - 100, 1000000 - 100, 1000000 - 100, 1000000, 1000000 + 50]) if not lag else r.choice([1000000 - 100, 1000000 - 100, 1000000 + 5])
       ops.append(('store', r.choice(metrics), base + r.randrange(4)))
   ndr = r.randint(2, 4) if short else r.randint(nm, 2 * nm + 2)
   return ops, ndr
